@@ -936,6 +936,7 @@ static PyObject *uftrace_trace_python(PyObject *self, PyObject *args)
 {
 	PyObject *frame, *args_tuple;
 	static PyObject *first_frame;
+	static int py_depth;
 	const char *event;
 	struct uftrace_python_symbol *sym;
 	bool is_pyfunc;
@@ -950,6 +951,20 @@ static PyObject *uftrace_trace_python(PyObject *self, PyObject *args)
 		Py_RETURN_NONE;
 
 	is_pyfunc = !strcmp(event, "call") || !strcmp(event, "return");
+
+	/*
+	 * When the script ends by an exception (e.g. sys.exit()), frames which
+	 * were entered before tracing started (runpy) return under the profiler.
+	 * Ignore the return of a frame whose call was never seen.
+	 */
+	if (!strcmp(event, "call"))
+		py_depth++;
+	else if (!strcmp(event, "return")) {
+		if (py_depth == 0)
+			Py_RETURN_NONE;
+		py_depth--;
+	}
+
 	sym = convert_function_addr(frame, args_tuple, is_pyfunc);
 	if (sym == NULL)
 		Py_RETURN_NONE;
